@@ -245,7 +245,7 @@ fn absorb_child(sink: &mut Sink, child: &Value, prop: &'static str) {
 
 fn c15_strings(cfg: &Cfg) -> Sink {
     run_parallel(cfg, |w, sink| {
-        strings::run_w9(cfg.n(120_000, 12_000_000), cfg.seed, w, sink);
+        strings::run_w9(cfg.n(120_000, 4_000_000), cfg.seed, w, sink);
     })
 }
 
@@ -255,7 +255,7 @@ pub fn c15(cfg: &Cfg) -> i32 {
     let mut sink = run_mix(cfg, &mix, &|| Box::new(C15::default()));
     // (b) string fuzz, monitor profile
     sink.merge(c15_strings(cfg));
-    let mut rep = report("strings_parsed", "(a) every setup and play state of W1/W2/W3/W7 games is printed, compared with the harness' independent rendering, re-parsed and compared (board, side, move number, turn-start status, identical reprint, and the transposition hash for turn-start states); (b) W9: fixed hostile inputs plus structured mutations of valid diagrams (header digits incl. 20-40 digit and non-ASCII numbers, row count 0..40, row width 0..40, inserted/deleted/doubled bars, shuffled lines, multi-byte characters) and random Unicode; only unwinding is judged for malformed text. Run in the monitor profile (overflow checks) and again in a plain release child. distinct_nontrivial = distinct fuzz strings plus distinct (board, move number, side) round-tripped.", vec![floor("strings_parsed", 1_000_000, 100_000_000), floor("play_states_round_tripped", 100_000, 1_000_000), floor("setup_states_round_tripped", 10_000, 100_000), floor("turn_start_hashes_compared", 30_000, 300_000), floor("parsed_ok", 100_000, 1_000_000), floor("class_header", 50_000, 1_000_000), floor("class_row_count", 50_000, 1_000_000), floor("class_row_width", 50_000, 1_000_000)], &["the harness' printer (model.rs to_text) is the independent rendering of the diagram format"]);
+    let mut rep = report("strings_parsed", "(a) every setup and play state of W1/W2/W3/W7 games is printed, compared with the harness' independent rendering, re-parsed and compared (board, side, move number, turn-start status, identical reprint, and the transposition hash for turn-start states); (b) W9: fixed hostile inputs plus structured mutations of valid diagrams (header digits incl. 20-40 digit and non-ASCII numbers, row count 0..40, row width 0..40, inserted/deleted/doubled bars, shuffled lines, multi-byte characters) and random Unicode; only unwinding is judged for malformed text. Run in the monitor profile (overflow checks) and again in a plain release child. distinct_nontrivial = distinct fuzz strings plus distinct (board, move number, side) round-tripped.", vec![floor("strings_parsed", 1_000_000, 40_000_000), floor("play_states_round_tripped", 100_000, 1_000_000), floor("setup_states_round_tripped", 10_000, 100_000), floor("turn_start_hashes_compared", 30_000, 300_000), floor("parsed_ok", 100_000, 1_000_000), floor("class_header", 50_000, 1_000_000), floor("class_row_count", 50_000, 1_000_000), floor("class_row_width", 50_000, 1_000_000)], &["the harness' printer (model.rs to_text) is the independent rendering of the diagram format"]);
     match run_plain_child(cfg, "C15-strings") {
         Ok(child) => {
             absorb_child(&mut sink, &child, "C15");
@@ -398,7 +398,7 @@ fn c17_base(b: &MBoard, gold: bool, step: u8, pend: Pend, base_name: &str, sink:
     sink.count("bases");
 }
 pub fn c17(cfg: &Cfg) -> i32 {
-    let nb = cfg.n(30, 1000);
+    let nb = cfg.n(30, 12_000);
     let sink = run_parallel(cfg, |w, sink| {
         let mut rng = Rng::new(cfg.seed, 0x1700 + w as u64);
         if w == 0 {
@@ -416,7 +416,7 @@ pub fn c17(cfg: &Cfg) -> i32 {
             k += cfg.workers as u64;
         }
     });
-    let mut rep = report("pairs_compared", "W11: for each base state (empty board, opening array, random legal positions with random side / step / status) the finite space of one-feature changes is enumerated completely: all 13 contents of each of the 64 squares and each of the 12 piece kinds on every square empty in the base (in the base's own context and in a random side/step/status context per family), and side, step and status each varied in every combination of the other two (2 564 + 1 282 + 8 families per base); states are built with GameState::new / PlayPhase::new and all hashes within a family must be pairwise distinct. distinct_nontrivial = distinct hash values seen.", vec![floor("bases", 30, 1000), floor("pairs_status", 8 * 205_120 * 30, 8 * 205_120 * 1000), floor("pairs_square_content", 2 * 64 * 78 * 30, 2 * 64 * 78 * 1000), floor("pairs_step", 6 * 1282 * 30, 6 * 1282 * 1000), floor("pairs_side", 2564 * 30, 2564 * 1000)], &["states are built with the public constructors, as the property says"]);
+    let mut rep = report("pairs_compared", "W11: for each base state (empty board, opening array, random legal positions with random side / step / status) the finite space of one-feature changes is enumerated completely: all 13 contents of each of the 64 squares and each of the 12 piece kinds on every square empty in the base (in the base's own context and in a random side/step/status context per family), and side, step and status each varied in every combination of the other two (2 564 + 1 282 + 8 families per base); states are built with GameState::new / PlayPhase::new and all hashes within a family must be pairwise distinct. distinct_nontrivial = distinct hash values seen.", vec![floor("bases", 30, 8000), floor("pairs_status", 8 * 205_120 * 30, 8 * 205_120 * 8000), floor("pairs_square_content", 2 * 64 * 78 * 30, 2 * 64 * 78 * 8000), floor("pairs_step", 6 * 1282 * 30, 6 * 1282 * 8000), floor("pairs_side", 2564 * 30, 2564 * 8000)], &["states are built with the public constructors, as the property says"]);
     rep.exhaustive = Some(true);
     rep.extra.insert("exhaustive_scope".into(), json!("per base state, the space of one-feature changes named in the property is enumerated completely; the bases themselves are sampled"));
     conclude(cfg, sink, rep)
